@@ -181,9 +181,14 @@ Proof. exact fec_ids_distinct. Qed.
 Print Assumptions c09_fec_ids_distinct.
 
 Theorem c09_slots_distinct :
+  (* data slots increase along the emission order *)
   (forall d ss j1 j2, 0 < d -> d <= ss -> 0 <= j1 < j2 -> slot d ss j1 < slot d ss j2) /\
+  (* the p parity slots of a group lie strictly between its last data slot and the next group's first *)
+  (forall d p j, 0 < d -> 0 <= p -> 0 <= j -> (j + 1) mod d = 0 ->
+     slot d (d + p) (j + 1) = slot d (d + p) j + 1 + p) /\
+  (* slots less than paws apart have different ids *)
   (forall m K1 K2, 0 < m -> K1 < K2 < K1 + m -> K1 mod m <> K2 mod m).
-Proof. exact (conj slot_mono mod_distinct). Qed.
+Proof. exact (conj slot_mono (conj slot_parity_gap mod_distinct)). Qed.
 Print Assumptions c09_slots_distinct.
 
 (* OOB: seqid 0xffffffff (>= paws, so never a FEC id), type 0xF3, encoder state untouched *)
